@@ -32,7 +32,7 @@ func init() {
 	})
 }
 
-var c10Keys = []string{"foo", "foobar", "Zed9", "bar", "fo", "a_b", "x1"}
+var c10Keys = []string{"foo", "foobar", "Zed9", "bar", "fo", "a_b", "x1", "wa", "ta", "w1"}
 var c10Sessions = []string{"inky", "", "a", "pinky", "b7"}
 var c10Langs = []string{"", "nor", "swa"}
 
@@ -64,6 +64,7 @@ func runC10(c *core.Ctx) *core.Outcome {
 	var memSealLock uint8
 	nops := t.Range(3, 40)
 	reuseBuffers := t.Chance(1, 2)
+	focusW := t.Chance(1, 8)
 	valN := 0
 	fellBack, lockedRefused, overwritten, readHits := 0, 0, 0, 0
 	written := map[string]int{}
@@ -84,7 +85,11 @@ func runC10(c *core.Ctx) *core.Outcome {
 		typ := []uint8{tTpl, tState, tUser, tBin, tMenu, tStatic}[t.Weighted(4, 4, 3, 2, 2, 1)]
 		sid := c10Sessions[t.Weighted(4, 3, 2, 1, 1)]
 		lg := c10Langs[t.Weighted(3, 3, 1)]
-		key := c10Keys[t.Weighted(5, 4, 3, 1, 1, 1, 1)]
+		key := c10Keys[t.Weighted(5, 4, 3, 1, 1, 1, 1, 2, 2, 2)]
+		if focusW {
+			// keys with a common first byte whose encoded (binary-key) file names are not adjacent
+			key = []string{"wa", "ta", "w1", "foo"}[t.Weighted(3, 3, 3, 1)]
+		}
 		ctxLg := ""
 		if t.Chance(1, 4) {
 			ctxLg = c10Langs[t.Int(len(c10Langs))]
@@ -99,7 +104,10 @@ func runC10(c *core.Ctx) *core.Outcome {
 		}
 		binVal := t.Chance(1, 4)
 		emptyVal := t.Chance(1, 10)
-		dumpPfx := []string{"", "f", "fo", "foo", "b", "zz"}[t.Int(6)]
+		dumpPfx := []string{"", "f", "fo", "foo", "b", "zz", "w"}[t.Int(7)]
+		if focusW && t.Chance(1, 2) {
+			dumpPfx = "w"
+		}
 		t.End()
 		rc := &ctxs[hi]
 		hidx := func(m *medium) int {
@@ -232,6 +240,11 @@ func runC10(c *core.Ctx) *core.Outcome {
 					continue
 				}
 				kbuf, vbuf := []byte(key), append([]byte{}, val...)
+				if reuseBuffers {
+					// key and value are two parts of one record buffer (the key slice has the value behind it)
+					rec := append(append(make([]byte, 0, len(key)+len(val)), key...), val...)
+					kbuf, vbuf = rec[:len(key)], rec[len(key):]
+				}
 				err := m.handles[hidx(m)].Put(ctxWithLang(ctxLg), kbuf, vbuf)
 				if reuseBuffers {
 					// the caller reuses its buffers for something else once Put has returned
@@ -345,11 +358,14 @@ func runC10(c *core.Ctx) *core.Outcome {
 				o.Probes["dump_langed_skipped"]++
 				continue
 			}
-			if (sessioned(rc.pfx) && rc.sid == "") || (!sessioned(rc.pfx) && rc.sid != "") {
-				// without a session the listing addresses the raw key space of all sessions, and a
-				// session context does not apply to unsessioned types: not specified, not compared
+			if sessioned(rc.pfx) && rc.sid == "" {
+				// without a session the listing addresses the raw key space of all sessions: not specified, not compared
 				o.Probes["dump_context_skipped"]++
 				continue
+			}
+			if !sessioned(rc.pfx) && rc.sid != "" {
+				// the session on the handle does not apply to this type (reads ignore it): the listing is that of the type
+				o.Probes["dump_unsessioned_type_with_session_selected"]++
 			}
 			want := map[string][]byte{}
 			for _, k := range c10Keys {
